@@ -5,7 +5,9 @@ import json, subprocess, sys
 from pathlib import Path
 
 rnd = sys.argv[1]
-only = set(sys.argv[2:])
+only = set(a for a in sys.argv[2:] if not a.startswith("--"))
+known_file = next((a.split("=", 1)[1] for a in sys.argv[2:] if a.startswith("--known=")), None)
+KNOWN = json.loads(Path(known_file).read_text()) if known_file else {}
 props = {json.loads(l)["id"]: json.loads(l) for l in Path("/verif/properties.jsonl").read_text().splitlines() if l.strip()}
 TEMPLATE = """# Task for this scratch worktree ({pid}) - look for a genuine defect
 
@@ -27,7 +29,7 @@ Do NOT modify anything under {wt}/src or {wt}/tests: the code is to be examined 
 
 {quant}
 
-## What to do
+{known}## What to do
 Read the code that implements this property and try hard to find an input, configuration, history handed to a re-invocation, crash point or
 thread interleaving for which the CURRENT, UNMODIFIED code violates the property. Think about every clause of the statement separately, about
 unusual but legal inputs and configurations (zero / empty / None values, defaults, boundary sizes), about realistic multi-invocation
@@ -59,5 +61,7 @@ for pid, p in props.items():
         subprocess.run(["git", "-C", "/repo", "worktree", "add", "-q", "--detach", wt, "HEAD"], check=True)
     q = p.get("quantifier") or {}
     quant = ("Must hold " + q["text"] + ".") if isinstance(q, dict) and q.get("text") else ""
-    Path(wt, "TASK.md").write_text(TEMPLATE.format(pid=pid, wt=wt, title=p.get("title", ""), statement=p.get("statement", ""), quant=quant))
+    kn = KNOWN.get(pid) or KNOWN.get("*")
+    known = ("## Already known (do not report these again - look for something else)\n" + "\n".join(f"- {k}" for k in ((KNOWN.get("*") or []) + (KNOWN.get(pid) or []))) + "\n\n") if kn else ""
+    Path(wt, "TASK.md").write_text(TEMPLATE.format(pid=pid, wt=wt, title=p.get("title", ""), statement=p.get("statement", ""), quant=quant, known=known))
     print("created", wt)
